@@ -5,7 +5,9 @@ from .._compat import number_types, string_types
 
 # what a sheet reads as a number: digits with an optional sign, decimal point and exponent;
 # int() and float() also take "inf", "nan", "infinity" and "1_000"
-NUMERIC_TEXT = re.compile(r'\s*[+-]?(\d+\.?\d*|\.\d+)([eE][+-]?\d+)?\s*\Z')
+# (digits, then optionally a point with more digits: written so that no digit can be matched in
+# two ways - '\d+\.?\d*' backtracked quadratically on a long run of digits followed by a letter)
+NUMERIC_TEXT = re.compile(r'\s*[+-]?(\d+(\.\d*)?|\.\d+)([eE][+-]?\d+)?\s*\Z')
 
 
 def whole_number(text):
